@@ -14,6 +14,11 @@
 //!   c10 live     large outputs; the real extraction runs on a tokio blocking thread while polling readers
 //!                open+read every output path and holders keep a descriptor opened before; prints
 //!                ( result torn holders_bad (final state) leftovers (aliases_bad rewritten_in_place) (counts) ).
+//!   c10 request  whole requests through the real `get_cached_or_compile` (gcc front end, shell-script compiler, real
+//!                DiskCache): a miss that stores the entry, then — previous outputs in place, entry possibly damaged,
+//!                compiler failing — the request that should be a hit, in a child under strace; same observation
+//!                as `strace` with result hit | compile_failed | error.  Catches what the CALLER of
+//!                extract_objects does to the output paths.
 //!   c10 child D  (internal) run the extraction described in D/spec.sx on D/entry.bin.
 use sccache::verif_hooks::cache::{CacheRead, CacheWrite, DecompressionFailure, FileObjectSource};
 use std::collections::HashMap;
@@ -44,6 +49,9 @@ struct Out {
     /// symlink (the output path is a symbolic link to `links/<i>`) | dir700 (its directory has mode 0700)
     shape: String,
     fault: String, // none missing corrupt_head corrupt_mid corrupt_tail bad_method no_dir
+    /// what the NEW content looks like: mixed (default) | zeros | ff — long constant runs compress by far more
+    /// than 1000:1 (a zero-filled data section, a sparse profile file)
+    kind: String,
 }
 
 impl Out {
@@ -70,6 +78,7 @@ fn parse_outs(x: &Sx) -> Vec<Out> {
                 old_special,
                 shape: if old.list().len() >= 3 { old.arg(2).str() } else { "plain".to_string() },
                 fault: o.arg(6).str(),
+                kind: if o.list().len() > 7 { o.arg(7).str() } else { "mixed".to_string() },
             }
         })
         .collect()
@@ -176,7 +185,17 @@ fn build(seed: u64, outs: &[Out], rt: &tokio::runtime::Runtime) -> Result<Built,
     let mut olds = vec![];
     let mut stored = vec![];
     for (i, o) in outs.iter().enumerate() {
-        let c = content(seed, i, true, o.size);
+        let c = match o.kind.as_str() {
+            // a short header, then one constant run (what a linker-filled table or a placeholder file looks like)
+            "zeros" | "ff" => {
+                let fill = if o.kind == "zeros" { 0u8 } else { 0xffu8 };
+                let mut v = vec![fill; o.size];
+                let head = content(seed, i, true, o.size.min(24));
+                v[..head.len()].copy_from_slice(&head);
+                v
+            }
+            _ => content(seed, i, true, o.size),
+        };
         let p = src.join(format!("s{}", i));
         std::fs::write(&p, &c).unwrap();
         std::fs::set_permissions(&p, std::fs::Permissions::from_mode(o.mode)).unwrap();
@@ -394,6 +413,7 @@ fn child(scratch: &Path) -> i32 {
 
 #[derive(Debug, Clone)]
 struct Call {
+    pid: String,
     name: String,
     args: String,
     ret: i64,
@@ -449,6 +469,7 @@ fn parse_log(log: &str) -> Vec<Call> {
             _ => ("0".to_string(), line),
         };
         let full: String;
+        let pid_of_line = pid.clone();
         if let Some(stripped) = rest.strip_suffix("<unfinished ...>") {
             pending.insert(pid, stripped.to_string());
             continue;
@@ -483,7 +504,7 @@ fn parse_log(log: &str) -> Vec<Call> {
         let args = full[open + 1..eq].to_string();
         let rv = full[eqs + 3..].split_whitespace().next().unwrap_or("0");
         let ret = rv.parse::<i64>().unwrap_or(if rv.starts_with('-') { -1 } else { 0 });
-        calls.push(Call { name, args, ret });
+        calls.push(Call { pid: pid_of_line, name, args, ret });
     }
     calls
 }
@@ -518,9 +539,27 @@ fn raw_events(calls: &[Call], outroot: &str) -> Vec<Raw> {
     let mut fds: HashMap<i64, String> = HashMap::new();
     let mut active = false;
     let rel = |p: &str| -> Option<String> { p.strip_prefix(outroot).map(|s| s.trim_start_matches('/').to_string()) };
+    // processes that exec inside the window are compilers started by the request (leg `request`): what THEY do to the
+    // outputs is the compiler's business, not the cache's
+    let mut foreign: std::collections::HashSet<String> = std::collections::HashSet::new();
+    {
+        let mut on = false;
+        for c in calls {
+            if c.args.contains("__c10_begin__") {
+                on = true;
+            } else if c.args.contains("__c10_end__") {
+                break;
+            } else if on && c.name == "execve" {
+                foreign.insert(c.pid.clone());
+            }
+        }
+    }
     for c in calls {
         if c.args.contains("__c10_begin__") {
             active = true;
+            continue;
+        }
+        if foreign.contains(&c.pid) {
             continue;
         }
         if c.args.contains("__c10_end__") {
@@ -835,6 +874,274 @@ fn strace_case(case: &Sx, rt: &tokio::runtime::Runtime) -> Sx {
     Sx::L(vec![Sx::sym(&kind), canonical(&raw, &outs), fin, Sx::usize(left), alias_bad, raw_sx(&raw)])
 }
 
+// ---------------------------------------------------------------- whole requests (leg `request`)
+//
+// The cache-hit arm of `get_cached_or_compile` (src/compiler/compiler.rs) is the caller of extract_objects: anything it
+// does to the output paths before or after the extraction is part of "how a hit installs the outputs".  This leg
+// drives whole requests: a shell script that answers sccache's gcc detection and "compiles" by copying prepared
+// files to `-o foo.o` (and `foo.dwo` with -gsplit-dwarf, an OPTIONAL output); request 1 (in the harness) is a miss
+// that stores the entry in a real DiskCache; the entry may then be damaged on disk, the previous outputs are put
+// in place, the compiler is made to fail (so a fallback compile changes nothing), and request 2 runs in a child
+// under strace.  Observation = the calls of the sccache process itself + the state the request leaves behind.
+
+fn compiler_script(root: &Path, m0: u32, m1: u32) -> String {
+    format!(
+        r#"#!/bin/sh
+mode=C; out=; src=; prev=; dwo=0
+for a in "$@"; do
+  case "$a" in -E) mode=E;; -vV) mode=V;; -gsplit-dwarf) dwo=1;; *.c) src=$a;; esac
+  [ "$prev" = -o ] && out=$a
+  prev=$a
+done
+[ $mode = V ] && {{ echo "unrecognized option -vV" >&2; exit 1; }}
+case "$src" in *testfile.c) [ $mode = E ] && mode=D;; esac
+case $mode in
+  D) echo "compiler_id=gcc"; echo 'compiler_version="12.0"'; exit 0;;
+  E) cat "$src"; exit 0;;
+  C) [ -e {root}/failcompile ] && {{ echo "compiler failed" >&2; exit 1; }}
+     cp {root}/new0 "$out"; chmod {m0:o} "$out"
+     if [ $dwo = 1 ] && [ -e {root}/new1 ]; then d="${{out%.o}}.dwo"; cp {root}/new1 "$d"; chmod {m1:o} "$d"; fi
+     exit 0;;
+esac
+"#,
+        root = root.display(),
+        m0 = m0,
+        m1 = m1
+    )
+}
+
+/// one request through the real compiler_info / parse_arguments / get_cached_or_compile on a real DiskCache
+fn run_request(root: &Path, split_dwarf: bool, rt: &tokio::runtime::Runtime, mark: bool) -> &'static str {
+    use futures::FutureExt;
+    use sccache::server::SccacheService;
+    use sccache::verif_hooks::cache::disk::DiskCache;
+    use sccache::verif_hooks::cache::{CacheMode, PreprocessorCacheModeConfig, Storage};
+    use sccache::verif_hooks::compiler::{CacheControl, CompileResult, CompilerArguments};
+    use sccache::verif_hooks::jobserver::Client;
+    use sccache::verif_hooks::mock_command::{CommandCreatorSync, ProcessCommandCreator};
+    use std::ffi::OsString;
+    let pool = rt.handle().clone();
+    let cwd = root.join("out").join("w");
+    let storage: Arc<dyn Storage> = Arc::new(DiskCache::new(
+        root.join("cache"),
+        1 << 32,
+        &pool,
+        PreprocessorCacheModeConfig { use_preprocessor_cache_mode: false, ..Default::default() },
+        CacheMode::ReadWrite,
+    ));
+    let service: SccacheService<ProcessCommandCreator> = SccacheService::mock_with_storage(storage.clone(), pool.clone());
+    let creator = ProcessCommandCreator::new(&Client::new_num(2));
+    let compiler = root.join("bin").join("gcc");
+    let src = root.join("src").join("foo.c");
+    let mut args: Vec<OsString> = vec!["-c".into(), src.into_os_string(), "-o".into(), "foo.o".into()];
+    if split_dwarf {
+        args.push("-g".into());
+        args.push("-gsplit-dwarf".into());
+    }
+    let env: Vec<(OsString, OsString)> = vec![];
+    let info = rt.block_on(std::panic::AssertUnwindSafe(service.compiler_info(compiler, cwd.clone(), &args, &env)).catch_unwind());
+    let c = match info {
+        Ok(Ok(c)) => c,
+        _ => return "unsupported_compiler",
+    };
+    let hasher = match c.parse_arguments(&args, &cwd, &env) {
+        CompilerArguments::Ok(h) => h,
+        _ => return "not_cacheable",
+    };
+    if mark {
+        let _ = std::fs::File::open(root.join("__c10_begin__"));
+    }
+    let r = rt.block_on(async {
+        let r = hasher
+            .get_cached_or_compile(&service, None, creator.clone(), storage.clone(), args.clone(), cwd.clone(), env.clone(), CacheControl::Default, pool.clone())
+            .await;
+        match r {
+            Ok((CompileResult::CacheMiss(_, _, _, fut), o)) => {
+                let _ = fut.await;
+                if o.status.success() { "miss" } else { "compile_failed" }
+            }
+            Ok((CompileResult::CacheHit(_), _)) => "hit",
+            Ok((CompileResult::CompileFailed(..), _)) => "compile_failed",
+            Ok(_) => "other",
+            Err(e) => {
+                if std::env::var("C10_DEBUG").is_ok() {
+                    eprintln!("request error: {:#}", e);
+                }
+                "error"
+            }
+        }
+    });
+    if mark {
+        let _ = std::fs::File::open(root.join("__c10_end__"));
+    }
+    r
+}
+
+fn request_child(root: &Path) -> i32 {
+    let rt = tokio::runtime::Builder::new_multi_thread().worker_threads(2).enable_all().build().unwrap();
+    let h = rt.handle().clone();
+    rt.block_on(async { h.spawn_blocking(|| ()).await.unwrap() });
+    let split = root.join("split_dwarf").exists();
+    println!("{}", run_request(root, split, &rt, true));
+    0
+}
+
+fn walk_files(d: &Path, out: &mut Vec<PathBuf>) {
+    if let Ok(rd) = std::fs::read_dir(d) {
+        for e in rd.flatten() {
+            let p = e.path();
+            if p.is_dir() {
+                walk_files(&p, out);
+            } else {
+                out.push(p);
+            }
+        }
+    }
+}
+
+fn request_case(case: &Sx, rt: &tokio::runtime::Runtime) -> Sx {
+    let seed = case.arg(0).u64();
+    let mut outs = parse_outs(case.arg(1));
+    if outs.is_empty() || outs.len() > 2 {
+        return harness_error("request leg: one or two outputs");
+    }
+    // the outputs gcc derives from `-o foo.o [-gsplit-dwarf]`: foo.o, and foo.dwo which it marks optional
+    outs[0].dir = "w".into();
+    outs[0].name = "foo.o".into();
+    outs[0].optional = false;
+    if outs.len() == 2 {
+        outs[1].dir = "w".into();
+        outs[1].name = "foo.dwo".into();
+        outs[1].optional = true;
+    }
+    let split = outs.len() == 2;
+    let td = match tempfile::Builder::new().prefix("vh-c10r-").tempdir_in("/dev/shm") {
+        Ok(t) => t,
+        Err(e) => return harness_error(&e.to_string()),
+    };
+    let root = td.path().to_path_buf();
+    let outroot = root.join("out");
+    let cwd = outroot.join("w");
+    for d in ["bin", "src", "out/w", "cache"] {
+        std::fs::create_dir_all(root.join(d)).unwrap();
+    }
+    std::fs::write(root.join("src/foo.c"), format!("int f{}(void){{return 0;}}\n", seed)).unwrap();
+    if split {
+        std::fs::write(root.join("split_dwarf"), b"").unwrap();
+    }
+    let mut news = vec![];
+    for (i, o) in outs.iter().enumerate() {
+        let c = match o.kind.as_str() {
+            "zeros" | "ff" => {
+                let fill = if o.kind == "zeros" { 0u8 } else { 0xffu8 };
+                let mut v = vec![fill; o.size];
+                let head = content(seed, i, true, o.size.min(24));
+                v[..head.len()].copy_from_slice(&head);
+                v
+            }
+            _ => content(seed, i, true, o.size),
+        };
+        // an optional output the compiler does not produce is simply not there to be stored
+        if !(o.fault == "missing" && i == 1) {
+            std::fs::write(root.join(format!("new{}", i)), &c).unwrap();
+        }
+        news.push(c);
+    }
+    let gcc = root.join("bin/gcc");
+    std::fs::write(&gcc, compiler_script(&root, outs[0].mode, outs.get(1).map(|o| o.mode).unwrap_or(0o644))).unwrap();
+    std::fs::set_permissions(&gcc, std::fs::Permissions::from_mode(0o755)).unwrap();
+    // request 1: a miss that stores the entry
+    let r1 = run_request(&root, split, rt, false);
+    if r1 != "miss" {
+        return harness_error(&format!("first request: {}", r1));
+    }
+    for o in &outs {
+        let _ = std::fs::remove_file(cwd.join(&o.name));
+    }
+    // damage the stored entry
+    let mut files = vec![];
+    walk_files(&root.join("cache"), &mut files);
+    if files.len() != 1 {
+        return harness_error(&format!("{} files in the cache after one store", files.len()));
+    }
+    let mut entry = std::fs::read(&files[0]).unwrap();
+    for (i, o) in outs.iter().enumerate() {
+        let name: &[u8] = if i == 0 { b"obj" } else { b"dwo" };
+        if matches!(o.fault.as_str(), "corrupt_head" | "corrupt_mid" | "corrupt_tail") {
+            let (st, len) = match member_data(&entry, name) {
+                Some(x) if x.1 > 0 => x,
+                _ => return harness_error("member not found in the stored entry"),
+            };
+            let at = match o.fault.as_str() {
+                "corrupt_head" => st,
+                "corrupt_tail" => st + len - 1,
+                _ => st + len / 2,
+            };
+            entry[at] ^= 0x5a;
+        }
+    }
+    std::fs::write(&files[0], &entry).unwrap();
+    // the previous outputs, and a compiler that fails from now on
+    let mut olds = vec![];
+    for (i, o) in outs.iter().enumerate() {
+        let p = cwd.join(&o.name);
+        if let Some((sz, mode)) = o.old {
+            let c = content(seed, i, false, sz);
+            std::fs::write(&p, &c).unwrap();
+            std::fs::set_permissions(&p, std::fs::Permissions::from_mode(mode)).unwrap();
+            olds.push(Some(c));
+        } else {
+            olds.push(None);
+        }
+    }
+    std::fs::write(root.join("failcompile"), b"").unwrap();
+    let objects: Vec<FileObjectSource> = outs
+        .iter()
+        .enumerate()
+        .map(|(i, o)| FileObjectSource { key: if i == 0 { "obj".into() } else { "dwo".into() }, path: cwd.join(&o.name), optional: o.optional })
+        .collect();
+    let old_inos = objects
+        .iter()
+        .map(|o| {
+            use std::os::unix::fs::MetadataExt;
+            std::fs::symlink_metadata(&o.path).ok().filter(|m| m.file_type().is_file()).map(|m| m.ino())
+        })
+        .collect();
+    let b = Built { td, outroot: outroot.clone(), entry: vec![], objects, news, olds, old_inos };
+    // request 2 under strace
+    let log = root.join("trace.log");
+    let exe = std::env::current_exe().unwrap();
+    let res = std::process::Command::new("strace")
+        .arg("-f")
+        .arg("-qq")
+        .arg("-e")
+        .arg("trace=execve,open,openat,creat,close,write,pwrite64,writev,pwritev,rename,renameat,renameat2,unlink,unlinkat,fchmod,chmod,fchmodat,link,linkat,symlink,symlinkat,truncate,ftruncate,fallocate,copy_file_range,sendfile,splice")
+        .arg("-o")
+        .arg(&log)
+        .arg(&exe)
+        .arg("reqchild")
+        .arg(&root)
+        .stdin(std::process::Stdio::null())
+        .stderr(if std::env::var("C10_DEBUG").is_ok() { std::process::Stdio::inherit() } else { std::process::Stdio::null() })
+        .output();
+    let res = match res {
+        Ok(r) => r,
+        Err(e) => return harness_error(&format!("strace: {}", e)),
+    };
+    let kind = String::from_utf8_lossy(&res.stdout).trim().to_string();
+    if kind.is_empty() {
+        return harness_error("child printed nothing");
+    }
+    let logtxt = std::fs::read_to_string(&log).unwrap_or_default();
+    if let Ok(keep) = std::env::var("C10_KEEP_LOG") {
+        let _ = std::fs::write(keep, &logtxt);
+    }
+    let calls = parse_log(&logtxt);
+    let raw = raw_events(&calls, &outroot.to_string_lossy());
+    let (fin, left, alias_bad) = final_state(&b, &outs);
+    Sx::L(vec![Sx::sym(&kind), canonical(&raw, &outs), fin, Sx::usize(left), alias_bad, raw_sx(&raw)])
+}
+
 // ---------------------------------------------------------------- live observers
 
 fn live_case(case: &Sx, rt: &tokio::runtime::Runtime) -> Sx {
@@ -978,12 +1285,16 @@ fn main() {
     if leg == "child" {
         std::process::exit(child(Path::new(&args[2])));
     }
+    if leg == "reqchild" {
+        std::process::exit(request_child(Path::new(&args[2])));
+    }
     vh::quiet_panics();
     let rt = tokio::runtime::Builder::new_multi_thread().worker_threads(2).enable_all().build().unwrap();
     vh::run_lines(|case| {
         let r = vh::catch(|| match leg.as_str() {
             "strace" => strace_case(case, &rt),
             "live" => live_case(case, &rt),
+            "request" => request_case(case, &rt),
             _ => harness_error("unknown leg"),
         });
         match r {
